@@ -9,7 +9,7 @@ EXTENDS Integers, Sequences, FiniteSets, Json, TLC
 SrcKinds  == {"com", "src", "both", "neither"}
 StdFmts   == {"text", "json", "fjson", "both"}
 Modes     == {"default", "NEW", "NOTHING", "OVERWRITE", "BOGUS"}
-Programs  == {"find", "findnone", "replace", "failing"}
+Programs  == {"find", "findnone", "replace", "failing", "multi"}      \* multi: two commands (results command by command)
 FileSets  == {"one", "glob", "none", "absent"}
 
 Configs == [src : SrcKinds, fmt : StdFmts, jfile : BOOLEAN, fjfile : BOOLEAN, mode : Modes,
@@ -51,7 +51,7 @@ RunLib ==
   /\ phase' = "render"
   /\ UNCHANGED <<cfg, exit, printed, wrote, msg>>
 
-HasMatches == cfg.prog \in {"find", "replace"}
+HasMatches == cfg.prog \in {"find", "replace", "multi"}
 Render ==
   /\ phase = "render"
   /\ exit' = 0 /\ phase' = "exit"
